@@ -261,6 +261,28 @@ func verifTensorLine(ts []verifTensor) string {
 	return sb.String()
 }
 
+// verifWT writes its bytes and reports a count chosen by mode: 0 exact (one Write), 1 always 0 (like the
+// tensor writers of convert/), 2 exact but in two Write calls, 3 too large.
+type verifWT struct {
+	data []byte
+	mode int
+}
+
+func (w verifWT) WriteTo(dst io.Writer) (int64, error) {
+	switch w.mode {
+	case 2:
+		h := len(w.data) / 2
+		if _, err := dst.Write(w.data[:h]); err != nil {
+			return 0, err
+		}
+		_, err := dst.Write(w.data[h:])
+		return int64(len(w.data)), err
+	default:
+		_, err := dst.Write(w.data)
+		return []int64{int64(len(w.data)), 0, 0, int64(len(w.data)) + 7}[w.mode], err
+	}
+}
+
 // verifWrite runs the real WriteGGUF into a real file and returns the bytes and the
 // tensor order the writer's sort produced.
 func verifWrite(dir string, kvs []verifKV, ts []verifTensor) (data []byte, order []verifTensor, err error) {
@@ -272,7 +294,9 @@ func verifWrite(dir string, kvs []verifKV, ts []verifTensor) (data []byte, order
 	byName := map[*byte]int{}
 	_ = byName
 	for i, t := range ts {
-		gts[i] = Tensor{Name: t.name, Kind: t.kind, Shape: t.shape, WriterTo: bytes.NewReader(t.data)}
+		// the data source's WriteTo result is not part of the contract WriteGGUF may rely on for the layout
+		// (every WriterTo in convert/ writes its bytes and returns 0): vary it, the file must not depend on it
+		gts[i] = Tensor{Name: t.name, Kind: t.kind, Shape: t.shape, WriterTo: verifWT{t.data, (len(t.data) + i) % 4}}
 		// remember identity through the Offset field (overwritten only on the loop copy)
 		gts[i].Offset = uint64(i)
 	}
